@@ -29,7 +29,7 @@ func genC17(d *Draw) Case {
 	var inner Case
 	switch fam {
 	case "C01":
-		opts := ProgOpts{Kinds: []string{"seq", "xor", "and", "or", "loop", "sub", "condtask"}, MaxDepth: 1 + d.N(2), MaxTasks: 3 + d.N(6), OrEarlyEnd: true, ActivityDefault: true, EmptyBranches: true, Fuse: true}
+		opts := ProgOpts{Kinds: []string{"seq", "xor", "and", "or", "loop", "sub", "condtask"}, MaxDepth: 1 + d.N(2), MaxTasks: 3 + d.N(6), OrEarlyEnd: true, ActivityDefault: true, EmptyBranches: true, Fuse: true, Throws: true}
 		prog := GenProgram(d, opts)
 		pc := &ProcCase{Prog: prog, Buf: d.N(17), Hold: d.N(3)}
 		pc.Picks = drawPicks(d, 48)
